@@ -360,6 +360,12 @@ def check_C03(P, tier, SA, holder):
             R.add(RS.event_obs(w, "R-MEANFLUX", ("typestate",), "Fourier layout is consistent wherever [0,0] is used as the mean mode", site))
             if not an:
                 R.add(mean_obligations(w, fp, "R-MEAN"))
+            else:
+                hh = S.z.at(lev) - S.z.at(ZERO)
+                R.add(eq_ob("R-MEAN", site, "mean concentration is the background minus the mean flux times the resistance h/Kz of uniform profiles", w.coeff("conc"),
+                            S.p000 - q00 * hh / S.Kz.at(RS.top_index(S)), "p00 = p000 - q00 * int dz/Kz", key={"out": "conc", "analytic": True}))
+                l0 = w.fields["conc"]["synth"].get("lvl0")
+                R.add(req_ob("R-MEAN", site, "no level slot is treated differently from the others", l0 is None, detail=None if l0 is None else "slot 0 holds %s" % str(l0)[:200]))
             if fp:
                 # weights sum to one: N * scale * q00 == 1
                 sy = w.fields["flx"]["synth"]
@@ -442,6 +448,22 @@ def check_C04(P, tier, SA, holder):
                             sources = src + [bg]
                         if nm == "flx" or ctx == "generic":
                             R.add(req_ob("R-LIN", site, "%s is independent of the background concentration" % nm, bg not in c.atoms(), key={"out": nm, "clause": "background"}))
+                        else:
+                            R.add(eq_ob("R-LIN", site, "the background adds a uniform offset: its coefficient in the mean concentration is one at every level", c.coeff_of(bg, 1), ONE, key={"out": nm, "clause": "offset"}))
+                        l0 = v.fields[nm]["synth"].get("lvl0")
+                        if l0 is not None:
+                            same = isinstance(l0, Expr) and isinstance(c, Expr) and l0.expand().coeff_of(bg, 1).eq(c.coeff_of(bg, 1)) and (l0.expand().degree_in(sources if not fp else [bg]) == c.degree_in(sources if not fp else [bg]))
+                            R.add(req_ob("R-LIN", site, "%s: the first level slot is typed like every other slot" % nm, bool(same), detail="slot 0 holds %s" % str(l0)[:200], key={"out": nm, "clause": "slot0"}))
+                    # control must not depend on the sources (thresholds, masks, branches)
+                    srcset = set(a for a in [bg])
+                    bad = []
+                    for ent in v.r.facts.signs:
+                        ats = ent[0].atoms()
+                        if bg in ats or any(a.kind == "fn" and (a.name in ("dft", "dft0") or (a.name in ("elem", "at", "sum", "abs", "max", "min") and a.args and isinstance(a.args[0], Expr) and atom_of(S.srf_flx.sym) in a.args[0].atoms())) for a in ats):
+                            bad.append(repr(ent[0])[:120])
+                    R.add(req_ob("R-LIN", site, "no branch or mask on this path is decided by the values of the sources", not bad, detail="; ".join(bad[:3]) or None, key={"clause": "control"}))
+                    for nm in ():
+                        pass
                         deg = c.degree_in(sources) if sources else (0, 0)
                         if fp:
                             want = (0, 1) if (nm == "conc" and ctx == "mean") else (0, 0)
